@@ -1,1 +1,118 @@
-From AK Require Import C01.Lemmas.
+(* C01/Props.v -- the property theorems, nothing else.
+   Every parse result is a valid derivation of the user's grammar.
+
+   Vocabulary (LLP/*.v = model of ak/llparser.py, C01/Spec.v, C01/Run.v):
+     ugrammar            the productions as the user wrote them: symbol -> ordered alternatives
+     uprods ug s         the user's alternatives of s ([] if s is not one of the user's symbols)
+     factorize / build   _factorize_productions (common-prefix factorization, 'smart' undo) /
+                         the constructor pipeline; p_grammar = prods_map, p_sfxs = _suffix_symbols
+     parse is_term table sfxs toks k start    the main loop of LLParser.parse on the token list
+                         toks (non-skipped tokens, $END$ last) with a budget of 2^k iterations;
+                         Ok t = a tree was returned (Err Hang = budget exhausted, excluded)
+     p_parse p k toks    the same for a built parser p
+     valid_tree ug t     every inner node (name, names of its children) is one of the user's
+                         productions of that symbol; a childless node is an empty production
+     no_helper sfxs t    no node or leaf of t is named by a suffix (helper) symbol
+     kinds_ok is_term t  leaves are named by terminals, inner nodes by non-terminals
+     leaves t            (name, value) of the leaves, left to right;  tok_pair tk = (tname tk, tvalue tk)
+     fact_ok ug fg sfxs  executable validator of a factorization: suffix symbols occur only as
+                         the last symbol of a production, no user symbol is a suffix symbol, keys
+                         of fg are distinct, the non-suffix keys are the user's symbols in order and
+                         their productions with suffix symbols expanded are EXACTLY the user's
+                         productions, in order
+     hyps_ok ug start p  fact_ok for p + no suffix symbol is a terminal + start is a user symbol *)
+From Coq Require Import ZArith List Bool.
+From AK Require Import LLP.Build C01.Spec C01.Run C01.Lemmas C01.LemmasFact C01.LemmasTable C01.LemmasTop.
+Import ListNotations.
+Open Scope Z_scope.
+
+(* ---- the parse loop: all token lists, all budgets, ANY table contained in the grammar ---- *)
+Theorem parse_sound : forall ug fg sfxs is_term table toks k start t,
+  fact_ok ug fg sfxs = true ->
+  (forall nt tok r, In r (table nt tok) -> In r (grules fg nt)) ->
+  (forall s, mem s sfxs = true -> is_term s = false) ->
+  is_term END_TOKEN = true ->
+  In start (map fst ug) ->
+  parse is_term table sfxs toks k start = Ok t ->
+  tree_name t = start /\ valid_tree ug t /\ no_helper sfxs t /\ kinds_ok is_term t /\
+  exists n tk, nth_error toks n = Some tk /\ tname tk = END_TOKEN /\
+               leaves t = map tok_pair (firstn n toks).
+Proof. exact parse_sound_l. Qed.
+Print Assumptions parse_sound.
+
+(* the token list as the tokenizer delivers it: $END$ last and only there *)
+Theorem parse_sound_tokens : forall ug fg sfxs is_term table body e k start t,
+  fact_ok ug fg sfxs = true ->
+  (forall nt tok r, In r (table nt tok) -> In r (grules fg nt)) ->
+  (forall s, mem s sfxs = true -> is_term s = false) ->
+  is_term END_TOKEN = true ->
+  In start (map fst ug) ->
+  (forall b, In b body -> tname b <> END_TOKEN) ->
+  parse is_term table sfxs (body ++ [e]) k start = Ok t ->
+  tree_name t = start /\ valid_tree ug t /\ no_helper sfxs t /\ kinds_ok is_term t /\
+  leaves t = map tok_pair body.
+Proof. exact parse_sound_tokens_l. Qed.
+Print Assumptions parse_sound_tokens.
+
+(* ---- the table the constructor builds is contained in the grammar ---- *)
+Theorem table_sub : forall g terms start nt tok r,
+  In r (table_get (make_tables g terms start) nt tok) -> In r (grules g nt).
+Proof. exact LemmasTable.table_sub. Qed.
+Print Assumptions table_sub.
+
+(* ---- a parser made by the constructor ---- *)
+Theorem parse_sound_build : forall ug terminals smart start p k body e t,
+  build ug terminals smart start = Ok p ->
+  hyps_ok ug start p = true ->
+  (forall b, In b body -> tname b <> END_TOKEN) ->
+  p_parse p k (body ++ [e]) = Ok t ->
+  tree_name t = start /\ valid_tree ug t /\ no_helper (p_sfxs p) t /\
+  kinds_ok (fun s => mem s (p_terminals p)) t /\ leaves t = map tok_pair body.
+Proof. exact parse_sound_build_h. Qed.
+Print Assumptions parse_sound_build.
+
+(* ---- the hypotheses are satisfiable: nested common prefixes, a nullable symbol, a roll-back ---- *)
+Definition xS := [83]. Definition xE := [69]. Definition xA := [65]. Definition xX := [88].
+Definition xa := [97]. Definition xb := [98]. Definition xc := [99]. Definition xd := [100]. Definition xe := [101].
+(* S -> E X ;  E -> A b c | A b d | A e ;  A -> a | <empty> ;  X -> a b | c | a d *)
+Definition ex_ug : ugrammar :=
+  [(xS, [[xE; xX]]); (xE, [[xA; xb; xc]; [xA; xb; xd]; [xA; xe]]); (xA, [[xa]; []]); (xX, [[xa; xb]; [xc]; [xa; xd]])].
+Definition ex_terms := [xa; xb; xc; xd; xe].
+Definition ex_body := [mkTok xb [98; 49] (1, 1) (1, 3); mkTok xd xd (1, 4) (1, 5);
+                       mkTok xa xa (1, 6) (1, 7); mkTok xd [100; 55] (1, 8) (1, 10)].
+Definition ex_end := mkTok END_TOKEN [] (1, 10) (1, 10).
+Definition ex_tree (t : tree) : bool :=
+  match t with
+  | Node s [Node e [Node a [] _; Leaf b1 _ _; Leaf d1 _ _] _; Node x [Leaf a2 _ _; Leaf d2 _ _] _] _ =>
+      sym_eqb s xS && sym_eqb e xE && sym_eqb a xA && sym_eqb b1 xb && sym_eqb d1 xd
+      && sym_eqb x xX && sym_eqb a2 xa && sym_eqb d2 xd
+  | _ => false
+  end.
+
+(* E is factorized twice (E__S00, E__S00__S00); A is matched by its empty production; the table
+   offers two productions for (X, a) and the first fails after having matched 'a' (roll-back) *)
+Example parse_sound_build_nonvacuous : forall smart,
+  exists p t, build ex_ug ex_terms smart xS = Ok p /\ hyps_ok ex_ug xS p = true /\
+    (forall b, In b ex_body -> tname b <> END_TOKEN) /\
+    p_parse p 6 (ex_body ++ [ex_end]) = Ok t /\ ex_tree t = true /\
+    length (p_sfxs p) = (if smart then 1 else 2)%nat /\
+    length (table_get (p_tables p) xX xa) = 2%nat.
+Proof.
+  intros [|]; vm_compute; (eexists; eexists; repeat split; try reflexivity;
+    intros b [<-|[<-|[<-|[<-|[]]]]]; discriminate).
+Qed.
+Print Assumptions parse_sound_build_nonvacuous.
+
+(* ---- the factorization ---- *)
+Definition factorize_ok_statement : Prop := forall ug terminals smart g sfxs,
+  factorize ug terminals smart = Ok (g, sfxs) -> fact_ok ug g sfxs = true.
+
+(* a user production that mentions a helper name (A -> a b | a c | d A__S00) used to be accepted
+   and 'd b' was parsed to A(d b), which the user did not write; since /repo 6e22989 the
+   constructor asserts that no symbol inside a production contains '__' *)
+Definition xAS00 := [65; 95; 95; 83; 48; 48].
+Definition bad_ug : ugrammar := [(xA, [[xa; xb]; [xa; xc]; [xd; xAS00]])].
+Example reserved_name_in_production_rejected : forall smart,
+  factorize bad_ug [xa; xb; xc; xd] smart = Err AssertErr.
+Proof. intros [|]; reflexivity. Qed.
+Print Assumptions reserved_name_in_production_rejected.
